@@ -4,6 +4,11 @@ from fractions import Fraction
 TOL = Fraction(1, 2**30)
 
 
+# purely relative comparison (statements carrying the option `reltol=1`: programs over tiny or huge values, where an
+# absolute floor of 2^-30 would hide exactly the differences they are meant to show)
+_RELATIVE = False
+
+
 def veq(a, b, tol=TOL):
     """value equality: None = NaN; strings (inf tokens, markers) never equal a model value"""
     if a is None or b is None:
@@ -12,6 +17,8 @@ def veq(a, b, tol=TOL):
         return False
     if a == b:
         return True
+    if _RELATIVE:
+        return abs(a - b) <= tol * abs(b)
     return abs(a - b) <= tol * max(1, abs(b))
 
 
@@ -22,7 +29,12 @@ def normalise_rows(init, rows):
     for p, v in rows:
         # float noise: pieces whose values agree to 2^-30 relative are one piece (non-dyadic quotients that are equal as
         # rationals may differ in the last bit after further float arithmetic)
-        if veq(v, prev) if not (isinstance(v, str) or isinstance(prev, str)) else v == prev:
+        # (in relative mode - tiny / offset values - only exactly equal neighbours are one piece)
+        if _RELATIVE or isinstance(v, str) or isinstance(prev, str):
+            same = v == prev
+        else:
+            same = veq(v, prev)
+        if same:
             continue
         out.append((p, v))
         prev = v
@@ -68,6 +80,15 @@ def pairs_equal(a, b):
 
 
 def results_equal(stmt, ri, rm, mode):
+    global _RELATIVE
+    _RELATIVE = "reltol=1" in stmt
+    try:
+        return _results_equal(stmt, ri, rm, mode)
+    finally:
+        _RELATIVE = False
+
+
+def _results_equal(stmt, ri, rm, mode):
     """mode: dict(normalise=bool, closed=bool)"""
     cmd = stmt.split()[0]
     if "errorsonly=1" in stmt:
@@ -101,6 +122,13 @@ def results_equal(stmt, ri, rm, mode):
         return any(veq(ri[1][0], m) for m in rm[1])
     if cmd == "corr":
         return corr_equal(ri, rm)
+    if cmd == "cov" and _RELATIVE and ri[0] == "vals" and rm[0] == "vals" and len(ri[1]) == len(rm[1]) == 1:
+        # a covariance is a difference of two moments: its float noise is relative to those moments (values are
+        # k * 2^-40 in these programs, the moments of order 2^-80), not to the possibly vanishing difference
+        a, b = ri[1][0], rm[1][0]
+        if a is None or b is None or isinstance(a, str) or isinstance(b, str):
+            return veq(a, b)
+        return abs(a - b) <= TOL * max(abs(b), Fraction(1, 2 ** 80))
     if cmd == "q" and stmt.split()[2] == "modes":
         return ri[0] == "vals" and len(ri[1]) == 1 and any(veq(ri[1][0], m) for m in rm[1])
     if rm[0] == "modesets":
@@ -125,10 +153,13 @@ def corr_equal(ri, rm):
     if y is None or isinstance(y, str):
         return False
     # y^2 * vf * vg == c^2 and sign(y) == sign(c)
-    if (y > 0) != (c > 0) and not (abs(y) < TOL and abs(c) < TOL):
+    if (y > 0) != (c > 0) and not (abs(y) < TOL and (abs(c) < TOL and not _RELATIVE or c == 0)):
         return False
     lhs = y * y * vf * vg
     rhs = c * c
+    if _RELATIVE:
+        # scale-free form: y^2 against cov^2 / (var f * var g), which lies in [0, 1]
+        return abs(y * y - rhs / (vf * vg)) <= Fraction(1, 2**24)
     return abs(lhs - rhs) <= Fraction(1, 2**24) * max(1, abs(rhs))
 
 
